@@ -60,13 +60,25 @@ def eof : PTok := ⟨.stop, ""⟩
 def tk (k : TK) (s : String) : PTok := ⟨k, s⟩
 
 /-- the hypotheses of the theorem are satisfiable: an end marker is a continuation that starts no operator -/
-example : PrimStop [eof] ∧ N1 [eof] := by
+theorem eof_stops : PrimStop [eof] ∧ N1 [eof] := by
   have h : ∀ k : TK, k ≠ .stop → HeadNot [eof] k := fun k hk => headNot_cons (by simpa [eof] using fun e => hk e.symm)
   have hp : HeadPlain [eof] := headPlain_cons (by decide +kernel)
   exact ⟨⟨h _ (by decide), h _ (by decide), h _ (by decide)⟩,
     ⟨⟨⟨⟨⟨⟨h _ (by decide), h _ (by decide), h _ (by decide)⟩, h _ (by decide), h _ (by decide)⟩, h _ (by decide)⟩,
       ⟨h _ (by decide), h _ (by decide), h _ (by decide), h _ (by decide), h _ (by decide), h _ (by decide), h _ (by decide),
         h _ (by decide), hp⟩⟩, h _ (by decide)⟩, h _ (by decide)⟩⟩
+/-- **C03 (no ambiguity)**: the text determines the tree — two well-formed model trees whose renderings coincide denote
+    the same expression tree (the parser is a function of the tokens and reads each rendering back as its tree) -/
+theorem text_determines_tree (g1 g2 : G) (w1 : g1.WF = true) (w2 : g2.WF = true)
+    (d1 : need 1 g1 + 1 ≤ maxDepth) (d2 : need 1 g2 + 1 ≤ maxDepth) (h : render 1 g1 = render 1 g2) : g1.toEx = g2.toEx := by
+  obtain ⟨f1, h1⟩ := expression_round_trip g1 w1 [eof] eof_stops.1 eof_stops.2 d1
+  obtain ⟨f2, h2⟩ := expression_round_trip g2 w2 [eof] eof_stops.1 eof_stops.2 d2
+  have a := h1 (max f1 f2) (Nat.le_max_left _ _)
+  have b := h2 (max f1 f2) (Nat.le_max_right _ _)
+  rw [h, b] at a
+  injection a with e _
+  exact e.symm
+
 example : (G.between (some "NOT") "between" "AND" a b (.bin .plus "+" b c)).WF = true := by decide +kernel
 
 /-- `a OR b AND c` is `a OR (b AND c)` -/
